@@ -443,6 +443,9 @@ class C01(Prop):
                         if pathway == "tool":
                             roots = ([*body.args] + [k.value for k in body.keywords if k.arg]) \
                                 if isinstance(body, ast.Call) else []
+                            if isinstance(body, ast.Call) and any(k.arg is None for k in body.keywords):
+                                out.append(Violation("no_forbidden_construct", "failure (a ** argument is outside the "
+                                                     "grammar: refuse, do not run the tool without it)", o[:80], i))
                             if not (isinstance(body, ast.Call) and isinstance(body.func, ast.Name)
                                     and body.func.id in tools):
                                 out.append(Violation("only_registered_tools", "callee is the name of a registered tool",
